@@ -1,4 +1,7 @@
 import HexProofs.Manager.HA
+import HexProofs.Manager2.C11LifeEx
+import HexProofs.Writes.C11DefaultEx
+import HexProofs.Writes.C11LifeMembers
 import HexProofs.Writes.MembersC11
 import HexProofs.Manager2.HATf
 import HexProofs.Manager2.HAFill
@@ -343,5 +346,169 @@ example := @MembersC11Ex.appliedF
 #print axioms member_schedule
 #print axioms member_schedule_tf
 #print axioms member_schedule_tf_fill
+
+
+open Hex Hex.C03
+variable {F : Type} [PyF F]
+
+/-! ### Heikin-Ashi + lifespan (HexProofs/Manager2/C11Life.lean) -/
+
+/-- **Heikin-Ashi + lifespan, no timeframe: every append schedule, every lifespan `≥ 0`, NO retention hypothesis.**  The
+run never raises and the manager holds the Heikin-Ashi left fold over the WHOLE raw stream minus the popped leading
+candles (`poppedAfter`: the sum of what each trim pops) – trimming never causes a re-conversion or a conversion from a
+wrong predecessor (a trim never pops the newest candle). -/
+theorem life_schedule (life : Int) (hlife : 0 ≤ life) (init : List (Candle F)) (chunks : List (List (Candle F)))
+    (hp : RawPlain (init ++ chunks.flatten)) (hnr : ∀ c ∈ init ++ chunks.flatten, Plain c) :
+    runSchedule ({ ha := true, lifespan := some life } : MgrCfg) init chunks
+      = .ok { cfg := { ha := true, lifespan := some life },
+              candles := (haSpec (init ++ chunks.flatten)).drop
+                (poppedAfter haSpec life init (poppedBy life (haSpec init)) chunks) } :=
+  ha_life_schedule life hlife init chunks (fun c hc => ⟨hnr c hc, hp c hc⟩)
+
+/-- **… on a collapsing timeframe**, under `KeepsPredecessor`: at every non-empty append nothing has been popped yet or
+one CLOSED bucket (one the append does not re-open) is still held -/
+theorem life_schedule_tf (tf : Int) (htf : 0 < tf) (life : Int) (hlife : 0 ≤ life) (init : List (Candle F))
+    (chunks : List (List (Candle F))) (h : RawStream (init ++ chunks.flatten))
+    (hp : RawPlain (init ++ chunks.flatten)) (hnr : ∀ c ∈ init ++ chunks.flatten, Plain c)
+    (hk : KeepsPredecessor (fun s => haSpec (resample tf s)) (closedBuckets tf) life init
+            (poppedBy life (haSpec (resample tf init))) chunks) :
+    runSchedule ({ tf := some tf, ha := true, lifespan := some life } : MgrCfg) init chunks
+      = .ok { cfg := { tf := some tf, ha := true, lifespan := some life },
+              candles := (haSpec (resample tf (init ++ chunks.flatten))).drop
+                (poppedAfter (fun s => haSpec (resample tf s)) life init
+                  (poppedBy life (haSpec (resample tf init))) chunks) } :=
+  tf_ha_life_schedule tf htf life hlife init chunks ⟨⟨h.stamped, h.plain, h.sorted, hnr⟩, hp⟩ hk
+
+/-- … under C15's hypothesis (`RetainsBuckets L`, any `L ≥ 1`, nothing popped at construction) -/
+theorem life_schedule_tf_retains (tf : Int) (htf : 0 < tf) (life : Int) (hlife : 0 ≤ life) (L : Nat) (hL : 1 ≤ L)
+    (init : List (Candle F)) (chunks : List (List (Candle F))) (h : RawStream (init ++ chunks.flatten))
+    (hp : RawPlain (init ++ chunks.flatten)) (hnr : ∀ c ∈ init ++ chunks.flatten, Plain c)
+    (hinit : trimCandles (some life) (resample tf init) = .ok (resample tf init))
+    (hret : RetainsBuckets L tf life init 0 chunks) :
+    runSchedule ({ tf := some tf, ha := true, lifespan := some life } : MgrCfg) init chunks
+      = .ok { cfg := { tf := some tf, ha := true, lifespan := some life },
+              candles := (haSpec (resample tf (init ++ chunks.flatten))).drop
+                (poppedAfter (fun s => haSpec (resample tf s)) life init 0 chunks) } :=
+  tf_ha_life_schedule_retains tf htf life hlife L hL init chunks ⟨⟨h.stamped, h.plain, h.sorted, hnr⟩, hp⟩ hinit hret
+
+/-- **… with `timeframe_fill`** -/
+theorem life_schedule_tf_fill (tf : Int) (htf : 0 < tf) (life : Int) (hlife : 0 ≤ life) (init : List (Candle F))
+    (chunks : List (List (Candle F))) (h : RawStream (init ++ chunks.flatten))
+    (hp : RawPlain (init ++ chunks.flatten)) (hnr : ∀ c ∈ init ++ chunks.flatten, Plain c)
+    (hk : KeepsPredecessor (fun s => haSpec (fillSpec tf s)) (closedFilled tf) life init
+            (poppedBy life (haSpec (fillSpec tf init))) chunks) :
+    runSchedule ({ tf := some tf, fill := true, ha := true, lifespan := some life } : MgrCfg) init chunks
+      = .ok { cfg := { tf := some tf, fill := true, ha := true, lifespan := some life },
+              candles := (haSpec (fillSpec tf (init ++ chunks.flatten))).drop
+                (poppedAfter (fun s => haSpec (fillSpec tf s)) life init
+                  (poppedBy life (haSpec (fillSpec tf init))) chunks) } :=
+  fill_ha_life_schedule tf htf life hlife init chunks ⟨⟨h.stamped, h.plain, h.sorted, hnr⟩, hp⟩ hk
+
+theorem life_schedule_tf_fill_retains (tf : Int) (htf : 0 < tf) (life : Int) (hlife : 0 ≤ life) (L : Nat)
+    (hL : 1 ≤ L) (init : List (Candle F)) (chunks : List (List (Candle F)))
+    (h : RawStream (init ++ chunks.flatten)) (hp : RawPlain (init ++ chunks.flatten))
+    (hnr : ∀ c ∈ init ++ chunks.flatten, Plain c)
+    (hinit : trimCandles (some life) (fillSpec tf init) = .ok (fillSpec tf init))
+    (hret : RetainsFilled L tf life init 0 chunks) :
+    runSchedule ({ tf := some tf, fill := true, ha := true, lifespan := some life } : MgrCfg) init chunks
+      = .ok { cfg := { tf := some tf, fill := true, ha := true, lifespan := some life },
+              candles := (haSpec (fillSpec tf (init ++ chunks.flatten))).drop
+                (poppedAfter (fun s => haSpec (fillSpec tf s)) life init 0 chunks) } :=
+  fill_ha_life_schedule_retains tf htf life hlife L hL init chunks ⟨⟨h.stamped, h.plain, h.sorted, hnr⟩, hp⟩ hinit
+    hret
+
+/-- **Without the retention hypothesis the timeframe statement is FALSE** (lifespan 60 s on 120 s buckets: the trim
+leaves only the still-forming bucket, the next merge clears its tag and it is converted as if it were the first candle
+ever; replayed on the library: HA-open 65.0 instead of 45.0). -/
+theorem life_schedule_tf_needs_predecessor :
+    ¬ (∀ (tf : Int), 0 < tf → ∀ (life : Int), 0 ≤ life →
+        ∀ (init : List (Candle Int)) (chunks : List (List (Candle Int))), RawTfHA (init ++ chunks.flatten) →
+        ∃ m d, runSchedule ({ tf := some tf, ha := true, lifespan := some life } : MgrCfg) init chunks = .ok m ∧
+          m.candles = (haSpec (resample tf (init ++ chunks.flatten))).drop d) :=
+  C11LifeEx.tf_ha_life_needs_predecessor
+
+/-! ### the default manager of a Hexital none of whose members lives on it (HexProofs/Writes/C11Default.lean) -/
+
+/-- **The default manager nobody lives on IS the bare manager** – any Hexital-level configuration, any program -/
+theorem default_manager_is_bare (cfg : MgrCfg) (tfn : Option String) (init : List (Candle F))
+    (members : List (Member F)) (ops : List (TwinOp F)) (H : Hexital F) (hmem : ∀ m, m ∈ members → m.OwnTf)
+    (hops : ∀ op, op ∈ ops → op.OwnTf) (hrun : runHexital cfg tfn init members ops = .ok H) :
+    ∃ dm, runSchedule cfg init (appendedBy ops) = .ok dm ∧ H.manager defaultKey = .ok dm ∧
+      ∀ n hi, dlookup n H.indicators = some hi → hi.mgrKey ≠ defaultKey :=
+  default_manager_bare cfg tfn init members ops H hmem hops hrun
+
+/-- **C11 for that manager, Hexital without timeframe** -/
+theorem default_schedule (tfn : Option String) (init : List (Candle F)) (members : List (Member F))
+    (ops : List (TwinOp F)) (H : Hexital F) (hmem : ∀ m, m ∈ members → m.OwnTf) (hops : ∀ op, op ∈ ops → op.OwnTf)
+    (hraw : RawPlain (init ++ (appendedBy ops).flatten))
+    (hrun : runHexital { ha := true } tfn init members ops = .ok H) :
+    H.manager defaultKey = .ok { cfg := cfgHA, candles := haSpec (init ++ (appendedBy ops).flatten) } :=
+  default_ha tfn init members ops H hmem hops hraw hrun
+
+/-- **… Hexital-level collapsing timeframe** -/
+theorem default_schedule_tf (tf : Int) (htf : 0 < tf) (tfn : Option String) (init : List (Candle F))
+    (members : List (Member F)) (ops : List (TwinOp F)) (H : Hexital F) (hmem : ∀ m, m ∈ members → m.OwnTf)
+    (hops : ∀ op, op ∈ ops → op.OwnTf) (h : RawStream (init ++ (appendedBy ops).flatten))
+    (hp : RawPlain (init ++ (appendedBy ops).flatten))
+    (hrun : runHexital { tf := some tf, ha := true } tfn init members ops = .ok H) :
+    H.manager defaultKey
+      = .ok { cfg := cfgTfHA tf, candles := haSpec (resample tf (init ++ (appendedBy ops).flatten)) } :=
+  default_ha_tf tf htf tfn init members ops H hmem hops (rawHA_of h hp) hrun
+
+/-- **… with `timeframe_fill`** (raw candles may carry any readings) -/
+theorem default_schedule_tf_fill (tf : Int) (htf : 0 < tf) (tfn : Option String) (init : List (Candle F))
+    (members : List (Member F)) (ops : List (TwinOp F)) (H : Hexital F) (hmem : ∀ m, m ∈ members → m.OwnTf)
+    (hops : ∀ op, op ∈ ops → op.OwnTf) (h : RawStream (init ++ (appendedBy ops).flatten))
+    (hp : RawPlain (init ++ (appendedBy ops).flatten))
+    (hrun : runHexital { tf := some tf, fill := true, ha := true } tfn init members ops = .ok H) :
+    H.manager defaultKey
+      = .ok { cfg := cfgFillHA tf, candles := haSpec (fillSpec tf (init ++ (appendedBy ops).flatten)) } :=
+  default_ha_tf_fill tf htf tfn init members ops H hmem hops ⟨h.stamped, h.plain, h.sorted⟩ hp hrun
+
+/-! ### Heikin-Ashi + lifespan inside a Hexital (HexProofs/Writes/C11LifeMembers.lean) -/
+
+/-- member without effective timeframe of a Heikin-Ashi Hexital with a lifespan: unconditional -/
+theorem member_life_schedule {N : List String} {members : List (Member F)} {mem : Member F}
+    (hm : MemberHyps N members mem) (htfx : Option Int) (tfn : Option String) (heff : mem.effTf htfx = none)
+    (life : Int) (hlife : 0 ≤ life) (init : List (Candle F)) (ops : List (TwinOp F)) (H : Hexital F)
+    (hops : ∀ op, op ∈ ops → op.OK N mem.tree.name)
+    (hraw : RawPlain (init ++ (appendedBy ops).flatten)) (hnr : ∀ c ∈ init ++ (appendedBy ops).flatten, Plain c)
+    (hrun : runHexital { tf := htfx, ha := true, lifespan := some life } tfn init members ops = .ok H) :
+    ∃ m, H.memberManager mem.tree.name = some m ∧ m.cfg = { ha := true, lifespan := some life } ∧
+      m.candles.map Candle.core = ((haSpec (init ++ (appendedBy ops).flatten)).drop
+        (poppedAfter haSpec life init (poppedBy life (haSpec init)) (appendedBy ops))).map Candle.core :=
+  member_ha_life hm htfx tfn heff life hlife init ops H hops (fun c hc => ⟨hnr c hc, hraw c hc⟩) hrun
+
+/-- the default manager nobody lives on, Heikin-Ashi Hexital with a lifespan, no timeframe: unconditional -/
+theorem default_life_schedule (life : Int) (hlife : 0 ≤ life) (tfn : Option String) (init : List (Candle F))
+    (members : List (Member F)) (ops : List (TwinOp F)) (H : Hexital F) (hmem : ∀ m, m ∈ members → m.OwnTf)
+    (hops : ∀ op, op ∈ ops → op.OwnTf) (hraw : RawPlain (init ++ (appendedBy ops).flatten))
+    (hnr : ∀ c ∈ init ++ (appendedBy ops).flatten, Plain c)
+    (hrun : runHexital { ha := true, lifespan := some life } tfn init members ops = .ok H) :
+    H.manager defaultKey
+      = .ok { cfg := { ha := true, lifespan := some life },
+              candles := (haSpec (init ++ (appendedBy ops).flatten)).drop
+                (poppedAfter haSpec life init (poppedBy life (haSpec init)) (appendedBy ops)) } :=
+  default_ha_life life hlife tfn init members ops H hmem hops (fun c hc => ⟨hnr c hc, hraw c hc⟩) hrun
+
+example := @member_tf_ha_life
+example := @default_tf_ha_life
+
+/-- non-vacuity -/
+example := @C11DefaultEx.applied
+example := @C11DefaultEx.applied0
+
+#print axioms life_schedule
+#print axioms life_schedule_tf
+#print axioms life_schedule_tf_retains
+#print axioms life_schedule_tf_fill
+#print axioms life_schedule_tf_fill_retains
+#print axioms life_schedule_tf_needs_predecessor
+#print axioms default_manager_is_bare
+#print axioms default_schedule
+#print axioms default_schedule_tf
+#print axioms default_schedule_tf_fill
+#print axioms member_life_schedule
+#print axioms default_life_schedule
 
 end Hex.C11
